@@ -127,6 +127,46 @@ def h_stmt(ctx, nids, end, sym_types, sym_date):
         ctx.check("each request has its account's type, id, the given dates and include flags", ctx.all(conds))
 
 
+def h_stmt_model(ctx, end, nbank):
+    """same command, but with the real client composing the request: OFXClient.download is stubbed and receives the OFX
+    model, which must hold one transaction wrapper per configured account (the same number under two account types are
+    two accounts)"""
+    from ofxtools.Client import OFXClient
+    seen = []
+
+    def fake_download(self, ofx, **kw):
+        seen.append(ofx)
+        return io.BytesIO(b"")
+    ctx.stub(OFXClient, "download", fake_download)
+    extra = {}
+    want = []
+    ids = [ctx.str(f"id{i}", 1, IDCH) for i in range(nbank)]
+    types = [BANKTYPES[ctx.choice(f"t{i}", list(range(len(BANKTYPES))))] for i in range(nbank)]
+    for a, t in zip(ids, types):
+        extra.setdefault(t, []).append(a)
+    cc = ctx.str("cc", 1, IDCH)
+    extra["creditcard"] = [cc]
+    extra["bankid"] = "B1"
+    args = base_args(ctx, extra)
+    (ofxget.request_stmtend if end else ofxget.request_stmt)(args)
+    ctx.check("the request is composed once", len(seen) == 1)
+    if len(seen) != 1:
+        return
+    ofx = seen[0]
+    bank = [] if ofx.bankmsgsrqv1 is None else list(ofx.bankmsgsrqv1)
+    ctx.check("one bank transaction wrapper per configured bank account", len(bank) == nbank)
+    got = []
+    for w in bank:
+        rq = w.stmtendrq if end else w.stmtrq
+        got.append((rq.bankacctfrom.accttype, rq.bankacctfrom.acctid))
+    for t in BANKTYPES:
+        for a, t2 in zip(ids, types):
+            if t2 == t:
+                ctx.check("every configured (type, number) pair is requested", ctx.any([ctx.all([g[0] == t.upper(), g[1] == a]) for g in got]) if got else False)
+    ccm = ofx.creditcardmsgsrqv1
+    ctx.check("the credit-card account is requested once", ccm is not None and len(ccm) == 1)
+
+
 # ---------------------------------------------------------------- --all: accounts discovered from ACCTINFORS
 def mk_response(ctx, n):
     """ACCTINFORS with n entries of symbolic kind (bank / credit card / investment), account type, id and service status"""
@@ -184,6 +224,12 @@ def h_all(ctx, n, end):
         for kind, at, acct, status in entries:
             if kind == "inv" and status == "ACTIVE":
                 want.append((InvStmtRq, None, acct))
+    if stale:
+        # region of the listed finding: stored accounts of a type for which the response lists no ACTIVE account
+        fell_through = not any([k == "bank" and at == "CHECKING" and status == "ACTIVE" for k, at, a, status in entries]) or \
+            not any([k == "cc" and status == "ACTIVE" for k, at, a, status in entries])
+        if ctx.known("C19-all-falls-through-to-stored-accounts", fell_through):
+            return
     ctx.check("exactly the accounts the response lists as ACTIVE are requested - never an inactive one", len(reqs) == len(want))
     if len(reqs) != len(want):
         return
@@ -194,7 +240,7 @@ def h_all(ctx, n, end):
         ctx.check("each discovered account is requested with its own type and id", ctx.all(conds))
 
 
-HARNESSES = dict(stmt=h_stmt, all=h_all)
+HARNESSES = dict(stmt=h_stmt, stmt_model=h_stmt_model, all=h_all)
 
 META = dict(
     bounds=dict(configured="0..1 (quick) / 0..2 (thorough) symbolic account ids per account type (6 types), symbolic presence and digits of the three dates, symbolic include flags",
@@ -227,4 +273,5 @@ def instances(tier, seed):
                 mk(f"stmt[end={end},{'+'.join(sorted(st))},{sd}]", "stmt", dict(nids=1, end=end, sym_types=st, sym_date=sd))
         for n in ((1, 2) if not full else (1, 2, 3)):
             mk(f"all[{n},end={end}]", "all", dict(n=n, end=end))
+        mk(f"stmt_model[end={end}]", "stmt_model", dict(end=end, nbank=2 if not full else 3))
     return out
